@@ -58,7 +58,7 @@ def _smgraph(ctx):
 def run(ctx):
     out = ec.run_engine_check(
         ctx,
-        profile=[("order", 300, 3000), ("tol", 180, 720), ("cont", 80, 800), ("gate", 112, 448), ("mixed", 120, 1500)],
+        profile=[("order", 300, 3000), ("tol", 240, 720), ("cont", 252, 1260), ("gate", 112, 448), ("mixed", 120, 1500)],
         n_quick=0, n_thorough=0,
         extra_header="From Coercion.C01 Require Import MonC01.",
         monitors=["mon_order", ("mon_order_diag", "list")],
